@@ -14,6 +14,8 @@
 (*   Robust          no event crashes because of a file / directory state  *)
 (*   LoadedIsOnDisk  a context holds only entries a loadable file holds    *)
 (*   LosesAtMostNew  a failed save loses at most the entries learned since *)
+(*   ReloadAsNew     after re-loading the configuration the context holds   *)
+(*                   of the auto-correct list what a new context would hold *)
 (* Every scenario (environment x event sequence) is emitted; the harness   *)
 (* concretises torn as EVERY byte prefix of a store the engine itself      *)
 (* wrote, wrongshape / emptyentries as corpora, and compares a context     *)
@@ -21,7 +23,8 @@
 (***************************************************************************)
 EXTENDS Naturals, Sequences, FiniteSets, TLC, Json
 
-CONSTANT MaxSteps
+CONSTANTS MaxSteps,
+          Focus        \* "all": every scenario | "damage": only scenarios in which the environment replaces the auto-correct file
 
 FileStates == {"absent", "valid", "empty", "torn", "wrongshape", "emptyentries"}
 DirStates  == {"ok", "missing", "blocked"}
@@ -68,14 +71,25 @@ Restart == alive /\ alive' = FALSE /\ mem' = 0 /\ acmem' = FALSE
 Update == alive /\ acmem' = Readable(ac)
           /\ UNCHANGED <<sel, ac, dir, alive, mem, disk, crashed>> /\ Log("update")
 
-Next == Len(hist) <= MaxSteps /\ (New \/ Type \/ CommitLearn \/ CrashInSave \/ Restart \/ Update)
+\* the environment acts while a context is alive: the user's auto-correct file is replaced by a file in another state
+\* (damaged by an interrupted save of its editor, deleted, restored) - at most once per scenario; the next Update
+\* must treat it like a context created now would
+Damaged == \E i \in 1..Len(hist) : hist[i].op = "damage"
+Damage == /\ Focus = "damage" /\ alive /\ dir = "ok" /\ ~Damaged
+          /\ \E f \in FileStates \ {ac} : ac' = f
+          /\ UNCHANGED <<sel, dir, alive, mem, acmem, disk, crashed>> /\ Log("damage")
+
+Next == Len(hist) <= MaxSteps /\ (New \/ Type \/ CommitLearn \/ CrashInSave \/ Restart \/ Update \/ Damage)
 Spec == Init /\ [][Next]_vars
 
 Robust         == ~crashed
 LoadedIsOnDisk == (alive /\ \A i \in 1..Len(hist) : hist[i].op # "commit") => mem = (IF sel = "valid" THEN disk ELSE 0)
 LosesAtMostNew == alive => (IF sel = "valid" THEN disk <= mem ELSE TRUE)
+\* re-loading: what the context holds of the user's auto-correct list is what a context created now would hold
+ReloadAsNew == (alive /\ hist[Len(hist)].op = "update") => acmem = Readable(ac)
 \* a completed save leaves a loadable file
 SaveLeavesValid == (hist[Len(hist)].op = "commit" /\ dir = "ok") => sel = "valid"
 
-Emit == Len(hist) = MaxSteps + 1 => PrintT(<<"REPLAY", ToJson([mc |-> "MC_Fault", steps |-> hist])>>)
+Emit == (Len(hist) = MaxSteps + 1 /\ (Focus = "damage" => Damaged /\ hist[Len(hist)].op \in {"update", "type"})) =>
+            PrintT(<<"REPLAY", ToJson([mc |-> "MC_Fault", focus |-> Focus, steps |-> hist])>>)
 =============================================================================
